@@ -96,6 +96,20 @@ func main() {
 				w.cleanup()
 			})
 			fmt.Println("gentest done, bad =", bad)
+		case "gencf":
+			// vf gencf <seed> <dir> [kind...]: write a control-flow program for manual experiments.
+			sd, _ := strconv.ParseInt(os.Args[2], 10, 64)
+			var only []string
+			if len(os.Args) > 4 {
+				only = os.Args[4:]
+			}
+			n := 8
+			if only != nil {
+				n = len(only)
+			}
+			cp := genCFProg(subRand(sd, "c11", "quick", 0), n, nil, only, true, nil)
+			writeTree(os.Args[3], cp.Prog.Files)
+			fmt.Println(jsonStr(cp.Funcs))
 		case "replay":
 			if len(os.Args) < 3 {
 				usage()
